@@ -890,8 +890,13 @@ func (g *Gen) designatorCells(d string, env *Env) ([]cellTarget, error) {
 			return nil, fmt.Errorf("cannot resolve %s", d)
 		}
 		var out []cellTarget
-		for n, s := range vars {
-			out = append(out, cellTarget{varName: n, sort: s})
+		var vn []string
+		for n := range vars {
+			vn = append(vn, n)
+		}
+		sortStrings(vn)
+		for _, n := range vn {
+			out = append(out, cellTarget{varName: n, sort: vars[n]})
 		}
 		return out, nil
 	}
